@@ -80,6 +80,8 @@ def _scenario(name, ops, what, allow=1, known=None):
             if "peer_close" in ops:
                 # the peer's CLOSE has been handled and ours has gone out (answered, or sent before): the channel is released
                 alts.append(z3.And(m.all_done(s), s[("wire", "wire", "unlinked")] < 1))
+                # ... and it HAS gone out: a peer's CLOSE is answered with ours unless ours was sent before
+                alts.append(z3.And(m.all_done(s), s[("wire", "wire", "close")] < 1))
             def tr(x):
                 return x if z3.is_bool(x) else x != 0
             closed_or_eof = z3.Or(tr(s[("fld", "chan", "eof_sent")]), tr(s[("fld", "chan", "closed")]))
@@ -121,7 +123,7 @@ def _scenario(name, ops, what, allow=1, known=None):
         w = real["tr"].wire
         first_end = min([i for i, x in enumerate(w) if x in (EOF, CLOSE)] or [len(w)])
         late = [x for x in w[first_end:] if x in (DATA, XDATA)]
-        not_released = "peer_close" in ops and getattr(real["tr"], "unlinked", 0) < 1 and getattr(s, "completed", False)
+        not_released = "peer_close" in ops and getattr(s, "completed", False) and (getattr(real["tr"], "unlinked", 0) < 1 or w.count(CLOSE) < 1)
         v = w.count(EOF) > 1 or w.count(CLOSE) > 1 or bool(late) or not_released
         return {"wire": str(w), "violated": v, "completed": getattr(s, "completed", None)}
     sc = Scenario("%s:%s" % ("||".join(ops), what), W, threads, bad, 0, params=P, init_extra=init,
@@ -138,7 +140,7 @@ def scenarios(tier):
     out = [_scenario("x", ["send", "close"], A), _scenario("x", ["send", "shutdown_write"], A),
            _scenario("x", ["close", "close"], A), _scenario("x", ["close", "peer_close"], A),
            _scenario("x", ["shutdown_write", "close"], A), _scenario("x", ["shutdown_write", "shutdown_write"], A),
-           _scenario("x", ["send", "peer_close"], A),
+           _scenario("x", ["send", "peer_close"], A), _scenario("x", ["shutdown_write", "peer_close"], A),
            _scenario("x", ["send", "shutdown_write", "window_adjust"], A),
            _scenario("x", ["send", "close"], "wire-order", known="data-message-leaves-after-eof/close"),
            _scenario("x", ["send", "shutdown_write"], "wire-order", known="data-message-leaves-after-eof/close")]
